@@ -341,7 +341,7 @@ class StructureMetaType(MetaType):
 
             value = getattr(data, field._name, None)
             if value is None:
-                value = field_type.__default__()
+                value = _default_value(field)
 
             if field.bits:
                 if isinstance(field_type, EnumMetaType):
@@ -806,7 +806,7 @@ def _generate_structure__init__(fields: list[Field]) -> FunctionType:
     template: FunctionType = _make_structure__init__(len(field_names))
     init = type(template)(
         template.__code__.replace(
-            co_consts=(None, *[field.type.__default__() for field in fields]),
+            co_consts=(None, *[_default_value(field) for field in fields]),
             co_names=(*field_names,),
             co_varnames=("self", *field_names),
         ),
@@ -837,6 +837,14 @@ def _generate_union__init__(fields: list[Field]) -> FunctionType:
         argdefs=template.__defaults__,
     )
     return _fresh_mutable_defaults(init, fields)
+
+
+def _default_value(field: Field) -> Any:
+    """The default value of a field. A bit field on a char type holds an integer, like the value that is read."""
+    default = field.type.__default__()
+    if field.bits and isinstance(default, bytes):
+        return int.from_bytes(default, "little")
+    return default
 
 
 def _fresh_mutable_defaults(init: FunctionType, fields: list[Field]) -> FunctionType:
